@@ -120,6 +120,16 @@ class Run:
             self.broken.append(name)
         self.notes.setdefault("correspondence_breaks", []).append({"name": name, "detail": str(detail)[:2000]})
 
+    def attempt(self, name, fn, *args, default=None, **kw):
+        """run one correspondence stage; an exception inside it (the implementation rejecting an input the harness
+        considers legal, ...) is a broken correspondence to be explained by the failing-input search, not a crash"""
+        try:
+            return fn(*args, **kw)
+        except Exception as e:
+            import traceback
+            self.corr_break(name, "harness stage raised: " + repr(e) + " | " + traceback.format_exc()[-600:])
+            return default
+
     # ---------------- violations ----------------
     def violation(self, cause, site, inp, expected=None, got=None, found_input=True, detail=None):
         v = Violation(cause, site, inp, expected, got, found_input, detail)
